@@ -30,6 +30,28 @@ fn falsified(tag: &str, input: String, what: String) {
     }
 }
 
+// watchdog: the call announced by `watch` must return within WATCH_LIMIT seconds; a call that does not (e.g. a union-find forest with
+// a cycle makes `find` spin) is reported as a discrepancy with its input and the sweep stops.  On the unchanged tree every announced
+// call takes milliseconds.
+const WATCH_LIMIT: u64 = 30;
+static CURRENT: std::sync::Mutex<Option<(String, String, std::time::Instant)>> = std::sync::Mutex::new(None);
+fn watch(tag: &str, input: String) { *CURRENT.lock().unwrap() = Some((tag.to_string(), input, std::time::Instant::now())); }
+fn unwatch() { *CURRENT.lock().unwrap() = None; }
+fn current_input() -> String { CURRENT.lock().unwrap().as_ref().map(|c| c.1.clone()).unwrap_or_default() }
+fn start_watchdog() {
+    std::thread::spawn(|| loop {
+        std::thread::sleep(std::time::Duration::from_millis(500));
+        let cur = CURRENT.lock().unwrap().clone();
+        if let Some((tag, input, t0)) = cur {
+            if t0.elapsed().as_secs() >= WATCH_LIMIT {
+                println!("FALSIFIED {} :: {} :: the call did not return within {} s (non-termination)", tag, input, WATCH_LIMIT);
+                println!("falsifier stopped by its watchdog");
+                std::process::exit(3);
+            }
+        }
+    });
+}
+
 struct Rng(u64);
 impl Rng {
     fn next(&mut self) -> u64 {
@@ -173,6 +195,8 @@ fn check_c10() {
 fn check_c20() {
     let mut rng = Rng(12345);
     for trial in 0..1500 {
+      let rng = &mut rng;
+      let r = quiet(move || {
         let n = 2 + rng.below(6);
         let mut p = IntPartition::new();
         let mut q: Partition<usize> = Partition::new();
@@ -185,14 +209,16 @@ fn check_c20() {
             match rng.below(5) {
                 0 | 1 => {
                     hist.push(format!("unite({},{})", a, b));
+                    watch("IntPartition / Partition history", format!("{:?}", hist));
                     p.unite(a, b); q.unite(&a, &b);
                     let (la, lb) = (model[a], model[b]);
                     for x in model.iter_mut() { if *x == lb { *x = la; } }
                 }
-                2 => { hist.push(format!("find({})", a)); let _ = p.find(a); let _ = q.find(&a); }
-                3 => { hist.push("clone".into()); clone_at = Some((p.clone(), q.clone(), model.clone())); }
+                2 => { hist.push(format!("find({})", a)); watch("IntPartition / Partition history", format!("{:?}", hist)); let _ = p.find(a); let _ = q.find(&a); }
+                3 => { hist.push("clone".into()); watch("IntPartition / Partition history", format!("{:?}", hist)); clone_at = Some((p.clone(), q.clone(), model.clone())); }
                 _ => {
                     hist.push("classes".into());
+                    watch("IntPartition / Partition history", format!("{:?}", hist));
                     // a random subset of the universe in random order (possibly with repeats)
                     let cnt = 1 + rng.below(n + 1);
                     let elms: Vec<usize> = (0..cnt).map(|_| rng.below(n)).collect();
@@ -212,11 +238,15 @@ fn check_c20() {
             } let r = p.find(x); if model[r] != model[x] || p.find(r) != r { falsified("IntPartition::find", format!("{:?}", hist), format!("representative {} of {} is not a fixed member of its class", r, x)); } }
         }
         if let Some((pc, qc, mc)) = clone_at {
+            watch("IntPartition / Partition history", format!("{:?} then find on the clone", hist));
             for x in 0..n { for y in 0..n {
                 if (pc.find(x) == pc.find(y)) != (mc[x] == mc[y]) { falsified("IntPartition::clone", format!("{:?}", hist), format!("clone changed with its original at ({},{})", x, y)); }
                 if (qc.find(&x) == qc.find(&y)) != (mc[x] == mc[y]) { falsified("Partition::clone", format!("{:?}", hist), format!("clone changed with its original at ({},{})", x, y)); }
             } }
         }
+      });
+      if let Err(e) = r { falsified("IntPartition / Partition history", current_input(), format!("panic {}", e)); }
+      unwatch();
     }
 }
 
@@ -224,6 +254,8 @@ fn check_c20_unions() {
     // union-heavy sequences (no finds in between, so trees keep their shape and ranks differ): checked at the end only
     let mut rng = Rng(777);
     for trial in 0..30000 {
+      let rng = &mut rng;
+      let r = quiet(move || {
         let n = 4 + rng.below(6);
         let mut p = IntPartition::new();
         let mut q: Partition<usize> = Partition::new();
@@ -232,6 +264,7 @@ fn check_c20_unions() {
         for _ in 0..(2 + rng.below(9)) {
             let (a, b) = (rng.below(n), rng.below(n));
             hist.push((a, b));
+            watch("IntPartition / Partition unions", format!("unions {:?} then find on every element", hist));
             p.unite(a, b); q.unite(&a, &b);
             let (la, lb) = (model[a], model[b]);
             for x in model.iter_mut() { if *x == lb { *x = la; } }
@@ -240,6 +273,9 @@ fn check_c20_unions() {
             if (p.find(x) == p.find(y)) != (model[x] == model[y]) { falsified("IntPartition::unite / find", format!("unions {:?}", hist), format!("find({})==find({}) is {} expected {}", x, y, p.find(x) == p.find(y), model[x] == model[y])); }
             if (q.find(&x) == q.find(&y)) != (model[x] == model[y]) { falsified("Partition::unite / find", format!("unions {:?}", hist), format!("find({})==find({}) is {} expected {}", x, y, q.find(&x) == q.find(&y), model[x] == model[y])); }
         } }
+      });
+      if let Err(e) = r { falsified("IntPartition / Partition unions", current_input(), format!("panic {}", e)); }
+      unwatch();
     }
 }
 
@@ -399,7 +435,10 @@ fn check_c01() {
     let mut inputs: Vec<String> = corpus().iter().map(|d| format!("{}", d)).collect();
     for s in ["", "<", "<1.1:1:2,1,1:3,3>", "<1.1:3:2 2,1 2 3,1 2 3:3,3>", "<1.1:1:0,1,1:3,3>", "<1.1:2 18446744073709551615:2,2,2:3,3>",
               "<1.1:99999999999:2,2,2:3,3>", "<1.1:2305843009213693952 1:1,1:1>", "<1.1:2:2,2,2:0 0,0 0>", "<1.1:2:1 2,3,2:3,3>", "<1.1:0:1:1>",
-              "<1.1:1 0::>", "<1.1:2:2 1,1 2,1 2:3 3,3 3>", "<1.1:2:2,2,2:3,3 3>", "<1.1:1:1,1,1:2,3>", "<1.1:4:2 4,4 3,2 4:4,4>"] { inputs.push(s.to_string()); }
+              "<1.1:1 0::>", "<1.1:2:2 1,1 2,1 2:3 3,3 3>",
+              // decimal numbers beyond 64 bits at every position (header, size, dimension, image, degree)
+              "<1.1:1:1,1,1:3,18446744073709551616>", "<99999999999999999999.1:1:1,1,1:3,4>", "<1.99999999999999999999:1:1,1,1:3,4>", "<1.1:18446744073709551616:1,1,1:3,4>",
+              "<1.1:1 36893488147419103232:1,1,1:3,4>", "<1.1:1:340282366920938463463374607431768211456,1,1:3,4>", "<1.1:1:1,1,1:18446744073709551616,4>", "<1.1:2:2,2,2:3,3 3>", "<1.1:1:1,1,1:2,3>", "<1.1:4:2 4,4 3,2 4:4,4>"] { inputs.push(s.to_string()); }
     // round trip of symbols built through the API, including degrees beyond 32 bits
     for ds in corpus().into_iter().filter(|d| d.is_complete()).take(60) {
         for big in [1usize << 31, (1usize << 32) + 7, 1usize << 40] {
@@ -421,6 +460,9 @@ fn check_c01() {
         inputs.push(c.into_iter().collect());
     } }
     for s in inputs {
+        // breadcrumb: an allocation failure is an abort, not a panic -- if the process dies here, tools/falsify.py reports this input
+        println!("TRYING PartialDSym::from_str :: {:?}", s);
+        watch("PartialDSym::from_str", format!("{:?}", s));
         match quiet(|| s.parse::<PartialDSym>()) {
             Err(e) => falsified("PartialDSym::from_str", format!("{:?}", s), format!("panic {}", e)),
             Ok(Err(_)) => {}
@@ -438,6 +480,7 @@ fn check_c01() {
             }
         }
     }
+    unwatch();
 }
 fn valid_morphism<S: DSym, T: DSym>(a: &S, b: &T, m: &[usize]) -> Option<String> {
     for d in 1..=a.size() { if m[d] == 0 { continue; }
@@ -625,6 +668,48 @@ fn check_c02_graph() {
     }
 }
 
+// C02 on PARTIAL D-sets (some operations undefined: "valid D-set" includes them, and an undefined operation is simply no edge):
+// orbit = reachability, one representative per component, is_connected.  Stated bound: 240 random PartialDSets of size <= 5,
+// dimension <= 3 with about a third of the entries undefined (fixed seed), all index lists, all seeds.
+fn check_c02_graph_partial() {
+    let mut rng = Rng(777);
+    for size in 1..=5usize { for dim in 1..=3usize { for _ in 0..16 {
+        let mut ds = PartialDSet::new(size, dim);
+        let mut txt = format!("PartialDSet(size {}, dim {}):", size, dim);
+        for i in 0..=dim {
+            let mut free: Vec<usize> = (1..=size).collect();
+            while !free.is_empty() {
+                let d = free.remove(0);
+                match rng.below(3) {
+                    0 => {}                                                     // left undefined
+                    1 => { ds.set(i, d, d); txt += &format!(" {}:{}-{}", i, d, d); }
+                    _ => { if free.is_empty() { continue; } let k = rng.below(free.len()); let e = free.remove(k); ds.set(i, d, e); txt += &format!(" {}:{}-{}", i, d, e); }
+                }
+            }
+        }
+        let n = size;
+        let all: Vec<usize> = (0..=dim).collect();
+        for idx in index_lists(dim) {
+            let mut comps: Vec<BTreeSet<usize>> = vec![];
+            for d in 1..=n {
+                let exp = reach(&ds, &idx, d);
+                match quiet(|| ds.orbit(idx.clone(), d)) {
+                    Ok(o) => { let got: BTreeSet<usize> = o.iter().cloned().collect(); if got != exp || o.len() != got.len() { falsified("DSet::orbit (Traversal, partial D-set)", format!("{} orbit({:?}, {})", txt, idx, d), format!("{:?} but the reachable set is {:?}", o, exp)); } }
+                    Err(e) => falsified("DSet::orbit (Traversal, partial D-set)", format!("{} orbit({:?}, {})", txt, idx, d), format!("panic {}", e)),
+                }
+                if !comps.iter().any(|c| c.contains(&d)) { comps.push(exp); }
+            }
+            if let Ok(reps) = quiet(|| ds.orbit_reps(idx.clone(), 1..=n)) {
+                for c in &comps { let k = reps.iter().filter(|r| c.contains(r)).count(); if k != 1 { falsified("DSet::orbit_reps (Traversal, partial D-set)", format!("{} orbit_reps({:?}, all)", txt, idx), format!("{:?}: component {:?} has {} representatives", reps, c, k)); break; } }
+            } else { falsified("DSet::orbit_reps (Traversal, partial D-set)", format!("{} orbit_reps({:?}, all)", txt, idx), "panic".into()); }
+        }
+        let conn = reach(&ds, &all, 1).len() == n;
+        if quiet(|| ds.is_connected()).ok() != Some(conn) { falsified("DSet::is_connected (partial D-set)", txt.clone(), format!("expected {}", conn)); }
+        let complete = (0..=dim).all(|i| (1..=n).all(|d| ds.op(i, d).is_some()));
+        if quiet(|| ds.is_complete()).ok() != Some(complete) { falsified("DSet::is_complete (partial D-set)", txt.clone(), format!("expected {}", complete)); }
+    } } }
+}
+
 // C04, first two sentences: is_minimal / minimal_image against the coarsest degree-respecting congruence computed by partition
 // refinement.  Stated bound: connected complete corpus symbols of size <= 5 (fixed seed) and their oriented covers.
 fn coarsest_congruence<T: DSym>(ds: &T) -> usize {
@@ -677,7 +762,8 @@ fn exact_det(m: &Vec<Vec<i64>>) -> i128 {
     sign * a[n - 1][n - 1]
 }
 // the p-adic modular solver: whenever it returns a solution, A x = b must hold exactly over the rationals.  Stated bound: 300
-// random systems, n <= 3, entries up to 10^9 in absolute value, right-hand sides both large and tiny (shorter than every column).
+// random systems, n <= 3, entries up to 10^9 in absolute value, right-hand sides both large and tiny (shorter than every column),
+// and 960 near-orthogonal systems of orders 2 and 4 at 60 scales (see below).
 fn check_c18_modular() {
     use num_bigint::BigInt; use num_rational::BigRational; use num_traits::Zero;
     use rust_dsymbols::geometry::traits::Array2d;
@@ -688,17 +774,41 @@ fn check_c18_modular() {
         let bscale = [1i64, 2, 1000, 1_000_000_000][rng.below(4)];
         let data: Vec<Vec<i64>> = (0..n).map(|_| (0..n).map(|_| (rng.next() as i64 % (2 * scale + 1)) - scale).collect()).collect();
         let bs: Vec<i64> = (0..n).map(|_| (rng.next() as i64 % (2 * bscale + 1)) - bscale).collect();
-        let r = quiet(|| { let mut a = VecMatrix::<i64>::new(n, n); for i in 0..n { for j in 0..n { a[(i, j)] = data[i][j]; } }
-                           let mut b = VecMatrix::<i64>::new(n, 1); for i in 0..n { b[(i, 0)] = bs[i]; }
-                           rust_dsymbols::geometry::modular_solver::solve(&a, &b).map(|x| (0..n).map(|i| x[(i, 0)].clone()).collect::<Vec<BigRational>>()) });
-        match r {
-            Ok(Some(x)) => { for i in 0..n { let mut acc = BigRational::zero(); for j in 0..n { acc = acc + BigRational::from_integer(BigInt::from(data[i][j])) * x[j].clone(); }
-                                 if acc != BigRational::from_integer(BigInt::from(bs[i])) { falsified("modular_solver::solve", format!("A={:?} b={:?}", data, bs), format!("returned {:?} but row {} of A x is {} instead of {}", x.iter().map(|q| q.to_string()).collect::<Vec<_>>(), i, acc, bs[i])); break; } } }
-            Ok(None) => {}
-            Err(e) => falsified("modular_solver::solve", format!("A={:?} b={:?}", data, bs), format!("panic {}", e)),
-        }
+        c18_modular_one(&data, &bs);
     }
-    let _ = 0;
+    // systems whose solution sits near the Hadamard bound (where the number of lifting steps matters): scaled +-1 patterns with
+    // orthogonal columns (orders 2 and 4) plus a small perturbation, right-hand sides of the same size that are no integer combination
+    // of the columns; 60 scales from 3 to 10^9, 8 systems per scale and order
+    let h2: [[i64; 2]; 2] = [[1, 1], [1, -1]];
+    let h4: [[i64; 4]; 4] = [[1, 1, 1, 1], [1, -1, 1, -1], [1, 1, -1, -1], [1, -1, -1, 1]];
+    let mut scale = 3.0f64;
+    for _ in 0..60 {
+        let s0 = scale as i64;
+        for t in 0..8 {
+            let s = s0 + t;
+            let d2: Vec<Vec<i64>> = (0..2).map(|i| (0..2).map(|j| h2[i][j] * s + (rng.below(7) as i64 - 3)).collect()).collect();
+            let b2: Vec<i64> = (0..2).map(|_| (rng.next() as i64 % (2 * s + 1)) - s).collect();
+            c18_modular_one(&d2, &b2);
+            let d4: Vec<Vec<i64>> = (0..4).map(|i| (0..4).map(|j| h4[i][j] * s + (rng.below(7) as i64 - 3)).collect()).collect();
+            let b4: Vec<i64> = (0..4).map(|_| (rng.next() as i64 % (2 * s + 1)) - s).collect();
+            c18_modular_one(&d4, &b4);
+        }
+        scale *= 1.4;
+        if scale > 1.0e9 { scale = 1.0e9; }
+    }
+}
+fn c18_modular_one(data: &Vec<Vec<i64>>, bs: &Vec<i64>) {
+    use num_bigint::BigInt; use num_rational::BigRational; use num_traits::Zero;
+    let n = bs.len();
+    let r = quiet(|| { let mut a = VecMatrix::<i64>::new(n, n); for i in 0..n { for j in 0..n { a[(i, j)] = data[i][j]; } }
+                       let mut b = VecMatrix::<i64>::new(n, 1); for i in 0..n { b[(i, 0)] = bs[i]; }
+                       rust_dsymbols::geometry::modular_solver::solve(&a, &b).map(|x| (0..n).map(|i| x[(i, 0)].clone()).collect::<Vec<BigRational>>()) });
+    match r {
+        Ok(Some(x)) => { for i in 0..n { let mut acc = BigRational::zero(); for j in 0..n { acc = acc + BigRational::from_integer(BigInt::from(data[i][j])) * x[j].clone(); }
+                             if acc != BigRational::from_integer(BigInt::from(bs[i])) { falsified("modular_solver::solve", format!("A={:?} b={:?}", data, bs), format!("returned {:?} but row {} of A x is {} instead of {}", x.iter().map(|q| q.to_string()).collect::<Vec<_>>(), i, acc, bs[i])); break; } } }
+        Ok(None) => {}
+        Err(e) => falsified("modular_solver::solve", format!("A={:?} b={:?}", data, bs), format!("panic {}", e)),
+    }
 }
 fn check_c18_exact() {
     let mut rng = Rng(31337);
@@ -1063,8 +1173,9 @@ fn check_c13_large() {
 fn main() {
     let prop = std::env::args().nth(1).unwrap_or_default();
     std::panic::set_hook(Box::new(|_| {}));
+    start_watchdog();
     match prop.as_str() {
-        "C01" => check_c01(), "C02" => { check_c02(); check_c02_graph(); check_c02_plain_r(); }, "C04" => { check_c04(); check_c04_minimal(); }, "C05" => { check_c05(); check_c05_covers(); check_c05_universal(); check_c05_count(); if thorough() { check_c05_sweep(); } },
+        "C01" => check_c01(), "C02" => { check_c02(); check_c02_graph(); check_c02_graph_partial(); check_c02_plain_r(); }, "C04" => { check_c04(); check_c04_minimal(); }, "C05" => { check_c05(); check_c05_covers(); check_c05_universal(); check_c05_count(); if thorough() { check_c05_sweep(); } },
         "C10" => check_c10(), "C11" => { check_c11(); check_c11_random(); check_c11_exhaustive(); }, "C18" => { check_c18(); check_c18_exact(); check_c18_modular(); }, "C20" => { check_c20(); check_c20_unions(); }, "C13" => { check_c13(); check_c13_large(); },
         _ => { eprintln!("unknown property"); std::process::exit(2); }
     }
